@@ -127,10 +127,11 @@ def _run(ctx, work):
         body.append('  printf("STRUCT %s %%zu %%zu\\n", sizeof(struct %s), ALIGNOF(struct %s));' % (s, s, s))
         for f in cs[s]['members']:
             body.append('  printf("FIELD %s %s %%zu %%zu %%zu\\n", offsetof(struct %s, %s), sizeof(((struct %s*)0)->%s), ALIGNOF(__typeof__(((struct %s*)0)->%s)));' % (s, f, s, f, s, f, s, f))
-    src = '#include <stdio.h>\n#include <stddef.h>\n#include "tfhe.h"\n#include "tfhe_io.h"\n#ifdef __cplusplus\n#define ALIGNOF(t) alignof(t)\n#else\n#define ALIGNOF(t) _Alignof(t)\n#endif\nint main(void) {\n' + '\n'.join(body) + '\n  return 0;\n}\n'
+    src = '#include <stdio.h>\n#include <stddef.h>\n#include "tfhe.h"\n#include "tfhe_io.h"\n#ifdef __cplusplus\n#define ALIGNOF(t) alignof(t)\n#else\n#define ALIGNOF(t) __alignof__(t)\n#endif\nint main(void) {\n' + '\n'.join(body) + '\n  return 0;\n}\n'
     views = {}
-    for lang, comp, std, ext in (('c', 'gcc', '-std=gnu11', 'c'), ('cpp', 'g++', '-std=gnu++11', 'cpp')):
-        p = os.path.join(work, 'probe.' + ext); open(p, 'w').write(src)
+    # the C view is the project's own C mode (-std=c99); later C standards and both C++ standards must see the same objects
+    for lang, comp, std, ext in (('c', 'gcc', '-std=c99', 'c'), ('cpp', 'g++', '-std=gnu++11', 'cpp'), ('c11', 'gcc', '-std=gnu11', 'c'), ('c17', 'gcc', '-std=gnu17', 'c'), ('cpp17', 'g++', '-std=gnu++17', 'cpp')):
+        p = os.path.join(work, 'probe_%s.%s' % (lang, ext)); open(p, 'w').write(src)
         rc, out = sh([comp, std, '-Wno-invalid-offsetof', '-I', INC, p, '-o', p + '.exe'])
         if rc != 0:
             ctx.report('probe-' + lang, 'layout probe does not compile as %s: %s' % (lang, out.strip().split('\n')[0][:300]), {'log': out[-2000:]}); views[lang] = {}; continue
@@ -199,6 +200,10 @@ def _run(ctx, work):
             ctx.report('struct-virtual-' + s, 'public structure %s has a virtual member or a base class in its C++ view' % s, {'struct': s})
         if cs[s]['members'] != xs.get(s, {}).get('members'):
             ctx.report('struct-members-' + s, 'C and C++ views of %s list different data members: %s vs %s' % (s, cs[s]['members'], xs.get(s, {}).get('members')), {'struct': s, 'c': cs[s]['members'], 'cpp': xs.get(s, {}).get('members')})
+        for other in ('c11', 'c17', 'cpp17'):
+            o = views.get(other, {}).get(s)
+            if o is not None and o != c:
+                ctx.report('struct-layout-%s-%s' % (s, other), 'size/offsets of %s differ between C99 (%s) and %s (%s)' % (s, c, other, o), {'struct': s, 'c99': c, other: o})
         if c != x:
             ctx.report('struct-layout-' + s, 'size/offsets of %s differ between C (%s) and C++ (%s)' % (s, c, x), {'struct': s, 'c': c, 'cpp': x})
         for f in c['fields']: ctx.count(('field', s, f[0]))
